@@ -249,9 +249,10 @@ impl<const BITS: usize, const LIMBS: usize> Uint<BITS, LIMBS> {
     pub fn saturating_add(self, rhs: Self) -> /*+*/(r:/*-*/ Self/*+*/)
         requires self.wf(), rhs.wf(), BITS <= usize::MAX - 63
         ensures r.wf(),
-            r.val() == if self.val() + rhs.val() >= pow2(BITS as nat)/*-*/ { /*+*/(pow2(BITS as nat) - 1) as nat } else { self.val() + rhs.val() },
+            self.val() + rhs.val() >= pow2(BITS as nat) ==> r.val() == pow2(BITS as nat) - 1,
+            self.val() + rhs.val() < pow2(BITS as nat) ==> r.val() == self.val() + rhs.val(),/*-*/
     {
-        proof { lemma_pow2_pos(BITS as nat); if self.val() + rhs.val() < pow2(BITS as nat) { lemma_small_mod(self.val() + rhs.val(), pow2(BITS as nat)); } }/*-*/
+        /*+*/proof { lemma_pow2_pos(BITS as nat); if self.val() + rhs.val() < pow2(BITS as nat) { lemma_small_mod(self.val() + rhs.val(), pow2(BITS as nat)); } }/*-*/
         match self.overflowing_add(rhs) {
             (value, false) => value,
             _ => Self::MAX(),
@@ -263,9 +264,10 @@ impl<const BITS: usize, const LIMBS: usize> Uint<BITS, LIMBS> {
     pub fn saturating_sub(self, rhs: Self) -> /*+*/(r:/*-*/ Self/*+*/)
         requires self.wf(), rhs.wf(), BITS <= usize::MAX - 63
         ensures r.wf(),
-            r.val() == if self.val() < rhs.val()/*-*/ { /*+*/0 } else { self.val() - rhs.val() },
+            self.val() < rhs.val() ==> r.val() == 0,
+            self.val() >= rhs.val() ==> r.val() == self.val() - rhs.val(),/*-*/
     {
-        proof { self.lemma_wf_lt(); lemma_pow2_pos(BITS as nat); if self.val() >= rhs.val() { lemma_small_mod((self.val() - rhs.val()) as nat, pow2(BITS as nat)); } }/*-*/
+        /*+*/proof { self.lemma_wf_lt(); lemma_pow2_pos(BITS as nat); if self.val() >= rhs.val() { lemma_small_mod((self.val() - rhs.val()) as nat, pow2(BITS as nat)); } }/*-*/
         match self.overflowing_sub(rhs) {
             (value, false) => value,
             _ => Self::ZERO(),
